@@ -241,6 +241,125 @@ def apply_overlay(scratch, files, swap_crypto, edits=()):
 
 
 # ---------------------------------------------------------------------------------------------
+# native replay of contract-stub harnesses
+# ---------------------------------------------------------------------------------------------
+# `#[kani::stub(target, stub)]` is not applied by `cargo kani playback`: the playback test would
+# run the real function, consume the recorded values in a different order and fail (or pass) for
+# reasons that have nothing to do with the counterexample.  For the native replay the stub is
+# therefore installed in the scratch copy's source: the target's body starts with a `return
+# stub(args)`, so the replay runs exactly the composition the solver decided (real front-end code +
+# the contracts that stand for the stubbed functions).  The files are restored afterwards.
+STUB_TARGETS = {
+    # target path as written in the attribute -> (source file, regex that finds the fn header)
+    "Mac::": "lorawan-device/src/mac/mod.rs",
+    "Session::": "lorawan-device/src/mac/session.rs",
+    "multicast::Response::": "lorawan-device/src/mac/multicast.rs",
+}
+
+
+def stubs_of(h):
+    """[(target, stub fn name)] of harness h, read from the attributes above its fn (or from the
+    macro that generates it)"""
+    text = open(h.file).read()
+    lines = text.split("\n")
+    out = []
+    idx = next((i for i, l in enumerate(lines) if re.match(r"\s*fn %s\s*\(" % re.escape(h.id), l)), None)
+    if idx is not None:
+        i = idx - 1
+        while i >= 0 and (lines[i].strip().startswith("#[") or lines[i].strip().startswith("//")):
+            m = re.match(r"\s*#\[kani::stub\(([^,]+),\s*([^)]+)\)\]", lines[i])
+            if m:
+                out.append((m.group(1).strip(), m.group(2).strip()))
+            i -= 1
+        return out
+    # macro-generated harness: `name!(<id>, ...)` -> stubs listed inside `macro_rules! name`
+    m = re.search(r"^(\w+)!\(%s\b" % re.escape(h.id), text, flags=re.M)
+    if m:
+        mm = re.search(r"macro_rules!\s*%s\s*\{(.*?)^\}; \}|macro_rules!\s*%s\s*\{(.*?)\n\}" % (m.group(1), m.group(1)),
+                       text, flags=re.S | re.M)
+        body = (mm.group(1) or mm.group(2)) if mm else ""
+        out = [(a.strip(), b.strip()) for a, b in re.findall(r"#\[kani::stub\(([^,]+),\s*([^)]+)\)\]", body)]
+    return out
+
+
+def inject_stubs(scratch, h, stubs, copies):
+    """install the stubs of harness h in the scratch copy for a native replay; returns
+    (undo list [(path, original text)], problems [str])"""
+    src = os.path.join(scratch, "src")
+    undo, problems = [], []
+    hdir = os.path.dirname(copies[h.file])
+    # module path of every harness file of this package (for `crate::...::stub_fn`)
+    def modpath_of(path):
+        text = open(path).read()
+        m = re.search(r"//@file anchor=(\S+)", text)
+        if not m:
+            return None
+        rel = m.group(1).split("/src/", 1)[1][:-3]
+        parts = [x for x in rel.split("/") if x not in ("mod", "lib")]
+        orig = next((o for o, c in copies.items() if c == path), None)
+        if orig is None:   # a sibling that is not overlaid in this build
+            orig = os.path.join(HARNESS_DIR, os.path.relpath(path, os.path.join(scratch, "harness")))
+        return "::".join(["crate"] + parts + [modname_for(orig)])
+    for target, stub in stubs:
+        fname = target.split("::")[-1]
+        srcfile = next((f for pre, f in STUB_TARGETS.items() if target.startswith(pre)), None)
+        if not srcfile:
+            problems.append("no native installation for stub target %s" % target)
+            continue
+        # the file that defines the stub fn: the harness's own copy first, then its siblings
+        cands = [copies[h.file]] + sorted(os.path.join(hdir, x) for x in os.listdir(hdir) if x.endswith(".rs"))
+        sfile = next((c for c in cands if re.search(r"^(pub\(crate\) )?fn %s\b" % re.escape(stub), open(c).read(), flags=re.M)), None)
+        if not sfile:
+            problems.append("stub fn %s not found" % stub)
+            continue
+        st = open(sfile).read()
+        if re.search(r"^fn %s\b" % re.escape(stub), st, flags=re.M):
+            undo.append((sfile, st))
+            open(sfile, "w").write(re.sub(r"^fn %s\b" % re.escape(stub), "pub(crate) fn %s" % stub, st, flags=re.M))
+        path = os.path.join(src, srcfile)
+        text = open(path).read()
+        m = re.search(r"\bfn %s\s*(<[^>]*>)?\s*\((.*?)\)\s*(->[^{;]*)?\{" % re.escape(fname), text, flags=re.S)
+        if not m:
+            problems.append("target fn %s not found in %s" % (fname, srcfile))
+            continue
+        params = []
+        depth, cur = 0, ""
+        for ch in m.group(2):
+            if ch in "<([":
+                depth += 1
+            elif ch in ">)]":
+                depth -= 1
+            if ch == "," and depth == 0:
+                params.append(cur)
+                cur = ""
+            else:
+                cur += ch
+        if cur.strip():
+            params.append(cur)
+        args = []
+        for prm in params:
+            prm = re.sub(r"#\[[^\]]*\]", "", prm).strip()
+            if not prm:
+                continue
+            if re.match(r"&?\s*(mut\s+)?self$", prm):
+                args.append("self")
+            else:
+                args.append(re.sub(r"^mut\s+", "", prm.split(":")[0].strip()))
+        call = "%s::%s(%s)" % (modpath_of(sfile), stub, ", ".join(args))
+        if not any(p == path for p, _ in undo):
+            undo.append((path, text))
+            text = open(path).read()
+        text = text[:m.end()] + "\n        #[allow(unreachable_code)]\n        return %s; // installed for a native replay (lrv.inject_stubs)\n" % call + text[m.end():]
+        open(path, "w").write(text)
+    return undo, problems
+
+
+def restore_files(undo):
+    for path, text in reversed(undo):
+        open(path, "w").write(text)
+
+
+# ---------------------------------------------------------------------------------------------
 # running kani
 # ---------------------------------------------------------------------------------------------
 def _limits(mem_gb):
